@@ -14,7 +14,6 @@ use crate::{
     },
     guarded,
     hx,
-    par,
     unhx,
 };
 use fuel_tx::{
@@ -636,8 +635,10 @@ impl Worker {
         self.go(target, "foreign_encoding", other, None);
     }
 
-    fn random_strings(&mut self, rng: &mut Rng, count: u64) {
-        for i in 0..count {
+    fn random_strings(&mut self, seed: u64, from: u64, count: u64) {
+        for i in from..count {
+            crate::progress(0, i);
+            let rng = &mut Rng::derive(seed, 0xC02_0001, i);
             let target = TARGETS[(i as usize) % TARGETS.len()];
             let len = match rng.below(4) {
                 0 => rng.usize_below(64),
@@ -682,7 +683,91 @@ fn vm_peak_mib() -> Option<u64> {
     Some(kb / 1024)
 }
 
+/// The byte-vector limit itself: a Witness whose payload is a few bytes below, exactly at
+/// and one byte above `VEC_DECODE_LIMIT` (real payloads of 100 MiB). What the decoder
+/// returns must encode again to the same bytes (the limit of the encoder must not be
+/// tighter than the decoder's); whether limit+1 is refused is observed, not judged.
+fn limit_boundary(rep: &mut Report, only: Option<u64>) {
+    let limit = fuel_types::canonical::VEC_DECODE_LIMIT as u64;
+    let _big = BIG.lock().unwrap_or_else(|e| e.into_inner());
+    for (what, len) in [("limit-9", limit - 9), ("limit-8", limit - 8), ("limit-1", limit - 1), ("limit", limit), ("limit+1", limit + 1)] {
+        if only.is_some_and(|l| l != len) {
+            continue;
+        }
+        let padded = (len as usize).div_ceil(8) * 8;
+        let mut buf: Vec<u8> = Vec::with_capacity(8 + padded);
+        buf.extend_from_slice(&len.to_be_bytes());
+        buf.resize(8 + len as usize, 0x5a);
+        buf.resize(8 + padded, 0);
+        rep.eval();
+        rep.count("limit_boundary_cases");
+        let info = json!({"op": "limit-boundary", "len": len});
+        let dec = guarded(|| {
+            let mut b = &buf[..];
+            let r = Witness::decode(&mut b);
+            (r, b.len())
+        });
+        let (w, remaining) = match dec {
+            Err(p) => {
+                rep.violation(format!("C02|Witness|panic|limit boundary ({what})|{}", p.site()), format!("Witness::decode of a payload of {len} bytes panics: {}", p.text), || info.clone());
+                continue;
+            }
+            Ok((Err(e), _)) => {
+                rep.class(format!("Witness|limit-boundary|{what}|{}", err_kind(&e)));
+                if len <= limit {
+                    rep.count("observation_payload_within_the_limit_refused");
+                    rep.note(format!("Witness payload of {what} bytes refused by the decoder with {e:?} (not judged: the property does not fix the limit)"));
+                }
+                continue;
+            }
+            Ok((Ok(w), remaining)) => (w, remaining),
+        };
+        rep.class(format!("Witness|limit-boundary|{what}|ok"));
+        let enc = guarded(|| (w.size(), w.to_bytes()));
+        match enc {
+            Err(p) => rep.violation(
+                format!("C02|Witness|limit boundary ({what})|encoding the decoded value panics"),
+                format!("Witness::decode accepted a payload of {len} bytes, encoding the value it returned panics: {}", p.text),
+                || info.clone(),
+            ),
+            Ok((size, again)) => {
+                if remaining != 0 || size != buf.len() || again != buf {
+                    rep.violation(
+                        format!("C02|Witness|limit boundary ({what})|re-encoding differs from the input"),
+                        format!("payload {len} bytes: consumed {} of {}, size() {size}, to_bytes().len() {}", buf.len() - remaining, buf.len(), again.len()),
+                        || info.clone(),
+                    );
+                } else {
+                    rep.count("limit_boundary_fixed_points");
+                }
+            }
+        }
+    }
+}
+
 fn replay(cfg: &Cfg, r: &Value) -> Report {
+    if r["op"].as_str() == Some("abort") {
+        // re-run (in-process: an abort reproduces it) the case a child died on
+        let seed = r["seed"].as_u64().unwrap_or(0);
+        let k = r["k"].as_u64().unwrap_or(0);
+        let mut wk = Worker { worker: 0, rep: Report::new(), strings: 0, skip_100mib: false };
+        if r["part"].as_u64() == Some(0) {
+            wk.random_strings(seed, k, k + 1);
+        } else {
+            let prev = if k > 0 { guarded(|| base_case(&mut Rng::derive(seed, 0xC02_0002, k - 1), k - 1)).map(|x| x.1).unwrap_or_default() } else { vec![] };
+            let mut rng = Rng::derive(seed, 0xC02_0002, k);
+            if let Ok((target, base)) = guarded(|| base_case(&mut rng, k)) {
+                wk.mutate(&mut rng, target, &base, &prev);
+            }
+        }
+        wk.rep.note("the recorded case was re-run in-process without aborting");
+        return wk.rep;
+    }
+    if r["op"].as_str() == Some("limit-boundary") {
+        let mut rep = Report::new();
+        limit_boundary(&mut rep, r["len"].as_u64());
+        return rep;
+    }
     let mut rep = Report::new();
     let Some(target) = r["type"].as_str().and_then(Target::from_name) else {
         rep.inconclusive = Some(format!("replay record without a known target type: {r}"));
@@ -696,12 +781,52 @@ fn replay(cfg: &Cfg, r: &Value) -> Report {
     rep
 }
 
+/// one shard of the workload (child process, single thread); `cfg.seed` is the child's seed
+fn run_shard(cfg: &Cfg, shards: u64, from_part: u64, from_idx: u64, total: u64, skip_100mib: bool) -> Report {
+    let w: usize = cfg.opt("shard").and_then(|s| s.parse().ok()).unwrap_or(0);
+    let per = total / shards.max(1);
+    let mut wk = Worker { worker: w, rep: Report::new(), strings: 0, skip_100mib };
+    // 10 % of the budget: random strings
+    if from_part == 0 {
+        wk.random_strings(cfg.seed, from_idx, per / 10);
+    }
+    let mut j = if from_part == 1 { from_idx } else { 0 };
+    let mut prev: Vec<u8> = g::utxo_id(&mut Rng::derive(cfg.seed, 0xC02, w as u64)).to_bytes();
+    while wk.strings < per {
+        // global case index: the shards interleave, so every shard sees every target kind
+        let k = w as u64 + shards.max(1) * j;
+        crate::progress(1, j);
+        j += 1;
+        let mut rng = Rng::derive(cfg.seed, 0xC02_0002, k);
+        let made = guarded(|| base_case(&mut rng, k));
+        let (target, base) = match made {
+            Ok(x) => x,
+            Err(p) => {
+                // encoding a generated value is C01's subject
+                wk.rep.count("observation_generator_encoding_panicked");
+                wk.rep.note(format!("encoding a generated value panicked: {}", p.text));
+                continue;
+            }
+        };
+        wk.rep.count("bases");
+        wk.mutate(&mut rng, target, &base, &prev);
+        prev = base;
+    }
+    wk.rep.count_n("strings", wk.strings);
+    if w == 0 && from_part == 0 && from_idx == 0 && !skip_100mib {
+        limit_boundary(&mut wk.rep, None);
+    }
+    if let Some(p) = vm_peak_mib() {
+        wk.rep.max("max_vm_peak_mib", p);
+    }
+    wk.rep
+}
+
 pub fn run(cfg: &Cfg) -> Report {
     if let Some(r) = &cfg.replay {
         return replay(cfg, r);
     }
     let total = cfg.budget(300_000, 20_000_000);
-    let per = total / cfg.threads.max(1) as u64;
     // the largest reservation a 100 MiB count can cause: Vec::<Input>::with_capacity
     let elem = std::mem::size_of::<Input>().max(std::mem::size_of::<Output>()).max(std::mem::size_of::<Witness>()) as u64;
     let worst = MIB100 * elem;
@@ -709,38 +834,37 @@ pub fn run(cfg: &Cfg) -> Report {
         Some(m) => worst > m / 10 * 8,
         None => false,
     };
-    let mut rep = par(cfg.threads, |w| {
-        let mut wk = Worker { worker: w, rep: Report::new(), strings: 0, skip_100mib };
-        let mut j = 0u64;
-        let mut prev: Vec<u8> = g::utxo_id(&mut Rng::derive(cfg.seed, 0xC02, w as u64)).to_bytes();
-        // 10 % of the budget: random strings
-        let mut rr = Rng::derive(cfg.seed, 0xC02_0001, w as u64);
-        wk.random_strings(&mut rr, per / 10);
-        while wk.strings < per {
-            let k = w as u64 + cfg.threads as u64 * j;
-            j += 1;
-            let mut rng = Rng::derive(cfg.seed, 0xC02_0002, k);
-            let made = guarded(|| base_case(&mut rng, k));
-            let (target, base) = match made {
-                Ok(x) => x,
-                Err(p) => {
-                    // encoding a generated value is C01's subject
-                    wk.rep.count("observation_generator_encoding_panicked");
-                    wk.rep.note(format!("encoding a generated value panicked: {}", p.text));
-                    continue;
-                }
-            };
-            wk.rep.count("bases");
-            wk.mutate(&mut rng, target, &base, &prev);
-            prev = base;
+    if let Some((shards, fp, fi)) = crate::children::child_mode(cfg) {
+        return run_shard(cfg, shards, fp, fi, total, skip_100mib);
+    }
+    // every shard runs in a child process: an allocation failure abort (a count word that
+    // reaches Vec::with_capacity unchecked) kills the child, not the monitor
+    let mut rep = crate::children::run_sharded(cfg, "C02", 0x02, |a, rep| {
+        let target = if a.part == 0 {
+            TARGETS[(a.idx as usize) % TARGETS.len()].name().to_string()
+        } else {
+            let k = a.shard + cfg.threads.max(1) as u64 * a.idx;
+            let mut rng = Rng::derive(a.seed, 0xC02_0002, k);
+            guarded(|| base_case(&mut rng, k)).map(|x| x.0.name().to_string()).unwrap_or_else(|_| "?".into())
+        };
+        if a.kind == "allocation failure" && a.alloc_bytes.is_some_and(|b| b <= worst) {
+            // a reservation that a count within VEC_DECODE_LIMIT may legitimately ask for
+            // was refused by this machine: memory pressure, not a verdict on the decoder
+            rep.inconclusive = Some(format!("a child worker could not reserve {} bytes (<= the {} bytes a count of 100 MiB may reserve): machine memory pressure", a.alloc_bytes.unwrap_or(0), worst));
+            return None;
         }
-        wk.rep.count_n("strings", wk.strings);
-        wk.rep
+        rep.violation(
+            format!("C02|host process aborted|{}|{target}", a.kind),
+            format!("child worker killed ({}) while decoding mutants of {} case {} (child seed {}): {}", a.status, if a.part == 0 { "random string" } else { "base" }, a.idx, a.seed, a.tail),
+            || json!({"op": "abort", "seed": a.seed, "part": a.part, "k": if a.part == 0 { a.idx } else { a.shard + cfg.threads.max(1) as u64 * a.idx }}),
+        );
+        Some((a.part, a.idx + 1))
     });
     if let Some(p) = vm_peak_mib() {
         rep.max("max_vm_peak_mib", p);
     }
-    rep.rule = "mutation of valid encodings of 16 decoder targets: every 8-byte word (first 40 + 88 sampled) x 14 replacement values (with and without a readable tail), truncation at every word boundary and random offsets, bit flips, byte replacement, non-zero padding, stacked edits, random suffixes, splices, foreign encodings; 10 % random strings of 0..4 KiB. class = (target type, mutation operator, outcome in {ok_same, ok_changed, error kind})".into();
+    rep.rule = "mutation of valid encodings of 16 decoder targets: every 8-byte word (first 40 + 88 sampled) x 14 replacement values (with and without a readable tail), truncation at every word boundary and random offsets, bit flips, byte replacement, non-zero padding, stacked edits, random suffixes, splices, foreign encodings; 10 % random strings of 0..4 KiB; Witness payloads of VEC_DECODE_LIMIT-9, -8, -1, +0, +1 real bytes (decode, re-encode, compare). class = (target type, mutation operator, outcome in {ok_same, ok_changed, error kind})".into();
+    rep.assume("every shard of the workload runs in a child process of the monitor which records the case it is about to run; a child killed by a failed allocation larger than any count within VEC_DECODE_LIMIT can reserve (or by a stack overflow) is a violation naming that case, a smaller failed reservation is machine memory pressure (inconclusive)");
     rep.assume("equality is the types' own PartialEq (ignores cached metadata, receipt payloads, panic contract id) with the receipt panic reason masked as in C01");
     rep.assume("error kinds are not judged; a decoder that consumes less than the whole input is not judged (consumed = input length - remaining)");
     rep.note("the fixed-point clause is judged on values returned by the decoder only; values the wire format cannot express (empty variant-distinguishing vector, C01 known findings) are never returned by it");
